@@ -77,14 +77,20 @@ class ArrayBase:
 
     def __iadd__(self, other: np.ndarray):
         if self._array is not None:
-            self.array += other
+            # Add on a copy: a rejected result must leave the current array untouched
+            new_array = self._array.copy()
+            new_array += other
+            self.array = new_array
         else:
             self.array = other
         return self
 
     def __add__(self, other: np.ndarray):
         if self._array is not None:
-            self.array += other
+            # Add on a copy: a rejected result must leave the current array untouched
+            new_array = self._array.copy()
+            new_array += other
+            self.array = new_array
         else:
             self.array = other
         return self
